@@ -1,12 +1,15 @@
 #!/bin/sh
-# usage: tools/seedtest.sh <seed-dir-name> <property> [tier]  — applies the seeded change to /repo, runs the check, reverts
+# usage: tools/seedtest.sh <seed-dir-name> <property> [tier]
+# applies the seeded change to a scratch worktree of /repo (never to /repo itself), points the check
+# at it with VERIF_REPO, and removes the worktree afterwards.
 cd /verif
 seed=$1; prop=$2; tier=${3:-quick}
-git -C /repo diff --quiet || { echo "repo dirty"; exit 2; }
-git -C /repo apply /verif/seeded/$seed/patch.diff || { echo "patch does not apply"; exit 2; }
+wt=/tmp/seedrepo_$seed
+git -C /repo worktree add -q --detach $wt HEAD || exit 2
+git -C $wt apply /verif/seeded/$seed/patch.diff || { echo "SEED $seed: patch does not apply"; git -C /repo worktree remove --force $wt; exit 2; }
 s=$(date +%s)
-./check $prop --tier $tier --evidence /tmp/seed_ev_$seed.json > /tmp/seed_$seed.log 2>&1; rc=$?
+VERIF_REPO=$wt ./check $prop --tier $tier --evidence /tmp/seed_ev_$seed.json > /tmp/seed_$seed.log 2>&1; rc=$?
 e=$(date +%s)
-git -C /repo checkout -- .
+git -C /repo worktree remove --force $wt
 echo "SEED $seed property=$prop rc=$rc $((e-s))s :: $(grep -c '^VIOLATION' /tmp/seed_$seed.log) violation lines :: $(tail -1 /tmp/seed_$seed.log)"
 grep '^  harness' /tmp/seed_$seed.log | head -3
